@@ -94,6 +94,26 @@ theorem build_draw_accepts_iff (n : Option String) (cs : List (Contour R)) (ks :
 
 end Fresh
 
+/-- The driver's pen op runs `buildKeep` (which also says what glyph a REJECTED call leaves behind): on
+accepted streams it is `build`. -/
+theorem buildKeep_accepts_iff (skip : Bool) (evs : List (Ev R)) (g g' : Glyph R) :
+    buildKeep skip evs g = (g', none) ↔ build skip evs g = .ok g' := by
+  unfold buildKeep build
+  rw [runKeep_spec skip evs ⟨g, none⟩]
+  rcases h : runKeep skip evs ⟨g, none⟩ with ⟨s', _ | e⟩ <;> simp [bind, Except.bind]
+
+/-- No reachable glyph holds shallow-loaded contours and contour objects at the same time (the
+hypothesis `g.contours = []` of `drawShallow_eq`): every pen call preserves it. -/
+theorem shallow_invariant (skip : Bool) (evs : List (Ev R)) (g g' : Glyph R) (h : build skip evs g = .ok g')
+    (hinv : g.ShallowInv) : g'.ShallowInv := by
+  unfold build at h
+  cases hr : run skip evs ⟨g, none⟩ with
+  | error x => simp [hr, bind, Except.bind] at h
+  | ok s' =>
+    simp [hr, bind, Except.bind] at h
+    rw [← h]
+    exact run_shallowInv hr hinv
+
 /-- Whatever a strict pen accepts, the registry afterwards is the old one plus exactly the identifiers
 the stream carried, without repetition. -/
 theorem strict_pen_registers_exactly (evs : List (Ev R)) (s s' : PenSt R)
@@ -282,6 +302,40 @@ theorem decompose_shallow (fuel : Nat) (l : Layer R) (g g' : Glyph R) (idx : Nat
 
 end Ring
 
+/-- `decomposeAllComponents`: with every base outline flattening (acyclic references, enough fuel),
+all components are decomposed in order; the glyph ends without components, its contours are the old ones
+followed by contours that equal — identifiers aside — the flattened outlines of the components, in
+component order. -/
+theorem decomposeAll_spec [Lean.Grind.CommRing R] [DecidableEq R] (fuel : Nat) (l : Layer R)
+    (ks : List (Component R)) (g : Glyph R) (hs : g.shallow = none) (hk : g.components = ks)
+    (hF : ∀ k ∈ ks, (flatten fuel l k.base k.t).isSome = true) :
+    ∃ g' cs', decomposeAll fuel l ks.length g = .ok g' ∧ g'.components = [] ∧ g'.shallow = none ∧
+      g'.contours = g.contours ++ cs' ∧
+      cs'.map Contour.eraseIds =
+        (ks.flatMap (fun k => (flatten fuel l k.base k.t).getD [])).map Contour.eraseIds := by
+  induction ks generalizing g with
+  | nil => exact ⟨g, [], rfl, hk, hs, by simp, rfl⟩
+  | cons k ks ih =>
+    obtain ⟨F, hFk⟩ : ∃ F, flatten fuel l k.base k.t = some F := by
+      have := hF k (by simp)
+      cases hx : flatten fuel l k.base k.t with
+      | none => simp [hx] at this
+      | some F => exact ⟨F, rfl⟩
+    have hk0 : g.components[0]? = some k := by simp [hk]
+    obtain ⟨cs1, h1, h2, _⟩ := decompose_spec fuel l g 0 k F hs hk0 hFk
+    have hcomp : (removeComponentAt { g with contours := g.contours ++ cs1, ids := g.ids ++ present (slotsOf cs1) } 0).components = ks := by
+      simp [removeComponentAt, hk]
+    have hsh : (removeComponentAt { g with contours := g.contours ++ cs1, ids := g.ids ++ present (slotsOf cs1) } 0).shallow = none := by
+      simp [removeComponentAt, hk, hs]
+    have hcont : (removeComponentAt { g with contours := g.contours ++ cs1, ids := g.ids ++ present (slotsOf cs1) } 0).contours = g.contours ++ cs1 := by
+      simp [removeComponentAt, hk]
+    obtain ⟨g', cs2, k1, k2, k3, k4, k5⟩ := ih _ hsh hcomp (fun k' hk' => hF k' (List.mem_cons_of_mem _ hk'))
+    refine ⟨g', cs1 ++ cs2, ?_, k2, k3, ?_, ?_⟩
+    · simp only [List.length_cons, decomposeAll, h1, bind, Except.bind]
+      exact k1
+    · rw [k4, hcont, List.append_assoc]
+    · simp [h2, k5, hFk]
+
 /-! ## 5. Segment pens (`Glyph.draw(pen)` into `otherGlyph.getPen()`) -/
 
 section Seg
@@ -308,6 +362,15 @@ theorem segment_roundtrip_build [OfNat R 0] [OfNat R 1] (n : Option String) (pts
               none :: ((rotateToFirstOn pts).map Point.strip).map (·.ident) from rfl, present_none, present_strip]
         exact List.nodup_nil)
   exact ⟨_, g', segment_roundtrip pts h, h1, h2, h3⟩
+
+/-- A whole glyph — in any source state — drawn with `Glyph.draw` into `SegmentToPointPen` (what
+`otherGlyph.getPen()` returns): every contour comes back as in `segment_roundtrip`, in order, followed
+by the components with their base names and transformations (component identifiers are not carried). -/
+theorem segment_roundtrip_glyph (g : Glyph R) (hf : ∀ c ∈ g.outline, SegFaithful c.points) :
+    g.drawSeg.bind (stpRun none) =
+      some ((g.outline.map (fun c => (⟨none, (rotateToFirstOn c.points).map Point.strip⟩ : Contour R))).flatMap drawContour ++
+            g.components.flatMap (fun k => drawComponent { k with ident := none })) :=
+  glyph_segRoundTrip g hf
 
 /-- An open contour and a closed contour that starts on an on-curve point come back point for point. -/
 theorem segment_roundtrip_unrotated (pts : List (Point R)) (p : Point R) (r : List (Point R))
